@@ -17,7 +17,9 @@ ROOT = Path(__file__).resolve().parent.parent
 SPECS = ROOT / "specs"
 EVIDENCE = ROOT / "evidence"
 REPLAYS = ROOT / "replays"
-KNOWN = ROOT / "KNOWN_FINDINGS.txt"
+# (VF_KNOWN_FILE: tooling only - lets tools/ evaluate a candidate repair against a findings file without the
+#  lines it is meant to retire; no registered command sets it)
+KNOWN = Path(os.environ.get("VF_KNOWN_FILE") or ROOT / "KNOWN_FINDINGS.txt")
 REPO = Path(os.environ.get("VERIF_REPO", "/repo"))
 
 _workdirs: List[Path] = []
